@@ -10,6 +10,11 @@ Added in build round 2 (see DESIGN.md section 3, round-2 table):
 R09.4 JSON tree protocol: the newick written by to_rich_dict is read back by deserialise_tree with the matching convention -- blanks are munged to ...
 R09.5 TreeBuilder._unique_name: a name it modifies (counter appended) is checked again against the names in use before it is handed out (recursive call or ...
 R09.6 unrooted() removes one edge below the root (the first internal child is dissolved, its children are promoted): the promoted nodes keep their own ...
+
+Added later in build rounds 2-3 (see DESIGN.md section 3, round-2/3 table):
+R09.7 a node is never re-found by its own name: inside the tree classes no lookup get_node_matching_name(<node>.name) is made with the name attribute of a ...
+R09.8 a loop that climbs towards the root (`n = n.parent`) while its test adds n.length is bounded by the ancestor it must not pass (`n.parent is not ...
+R09.9 the clade sets behind the tree distances are computed from the tree as it is NOW: TreeNode.subsets() writes its per-node scratch attribute ...
 """
 
 from __future__ import annotations
